@@ -115,16 +115,17 @@ fn c07_q_retry_try_new_refs3_of4() {
 vharness! {
 #[kani::unwind(6)]
 fn c07_q_boxed_try_new_nested_ref() {
+	// (a nested sorting collection with >= 2 members feeding a second sort does not finish in CBMC once the
+	// sort key is an integer - DESIGN §2 fact 13 - so the nested member has one leaf here; nested members with
+	// several leaves are covered with concrete arrangements by c08_q_unchecked_ctors_sort_too)
 	let u = <[M; 3] as Make<3>>::make([0; 3]);
-	// the inner arrangement is concrete (listed against address order); a symbolic inner arrangement
-	// nested in a second sort is out of CBMC's reach (> 10 min), the outer position is symbolic
-	let (a, b, c) = (1, 0, idx::<3>());
-	let inner_members = [&u[a], &u[b]];
+	let (a, b, c) = (idx::<3>(), idx::<3>(), idx::<3>());
+	let inner_members = [&u[a]];
 	let inner = RefLockCollection::try_new(&inner_members);
 	assert!(inner.is_some(), "C07_ref_try_new_accepts_duplicate_free_input");
 	let inner = inner.unwrap();
-	let dup = c == a || c == b;
-	let r = BoxedLockCollection::try_new((&inner, &u[c]));
+	let dup = a == b || a == c || b == c;
+	let r = BoxedLockCollection::try_new((&u[b], &inner, &u[c]));
 	assert!(r.is_none() == dup, "C07_boxed_try_new_sees_locks_inside_a_nested_ref_collection");
 	if let Some(o) = &r {
 		let locks = cp::boxed_locks(o);
@@ -132,6 +133,7 @@ fn c07_q_boxed_try_new_nested_ref() {
 	}
 	kani::cover!(dup, "dup");
 	kani::cover!(!dup, "nodup");
+	kani::cover!(a == c && a != b, "dup_between_nested_and_listed");
 }}
 
 vharness! {
